@@ -113,6 +113,12 @@ def compute_features(sig, fs, f_range, center_extrema='peak', burst_method='cycl
     df_shape_features = compute_shape_features(sig, fs, f_range, center_extrema=center_extrema,
                                                find_extrema_kwargs=find_extrema_kwargs)
 
+    # Work on copies, the dictionaries of the caller are never modified
+    if isinstance(burst_kwargs, dict):
+        burst_kwargs = burst_kwargs.copy()
+    if isinstance(threshold_kwargs, dict):
+        threshold_kwargs = threshold_kwargs.copy()
+
     # Ensure kwargs are a dictionaries
     if burst_method == 'amp' and not isinstance(burst_kwargs, dict):
         burst_kwargs = {}
